@@ -1,11 +1,71 @@
+import OdmlModel.Model.Link
 import Driver.Util
 import Driver.Loop
+import Driver.MergeCodec
 open Lean Drv
 
 namespace DrvC12
+open Merge Link DrvMerge
 
-/-- Stub: replaced when the model of C12 is built. -/
-def handle (_j : Json) : Except String Json := throw "model of C12 not built"
+def decDoc (j : Json) : Except String (Doc Val) :=
+  match j with
+  | .arr xs => xs.toList.mapM decSec
+  | _ => throw "bad document"
+
+def encDoc (d : Doc Val) : Json := jarr (d.map encSec)
+
+def encPath (p : List Str) : Json := jarr (p.map jchars)
+
+/-- `fetch` from the `files` object of the request -/
+def mkFetch (files : List (String × Doc Val)) (u : Str) : Option (Doc Val) :=
+  (files.find? (fun f => f.1.toList == u)).map (·.2)
+
+def runOps (fetch : Str → Option (Doc Val)) : Doc Val → List String → Except String (List Json)
+  | _, [] => pure []
+  | d, op :: ops => do
+    let (d', out) ← match op with
+      | "finalize" => pure (finalize convC fetch d)
+      | "clean" => pure (cleanDoc convC fetch d, Outcome.ok)
+      | "reload" => pure (d, Outcome.ok)
+      | _ => throw s!"unknown doc op {op}"
+    let rest ← runOps fetch d' ops
+    pure (jobj [("out", encOutcome out), ("doc", encDoc d')] :: rest)
+
+def linkerInfo (fetch : Str → Option (Doc Val)) (doc : Doc Val) (p : List Str) : Json :=
+  match secAt doc p with
+  | none => Json.null
+  | some l =>
+    let tgt : Option (Sec Val) := match l.attrs.link, l.attrs.incl with
+      | some txt, _ => secAt doc (parsePath txt)
+      | none, some txt =>
+        (match fetch (parseInclude txt).1 with
+         | some term => (match (parseInclude txt).2 with
+           | some tp => secAt term tp
+           | none => term.head?)
+         | none => none)
+      | none, none => none
+    match tgt with
+    | none => jobj [("path", encPath p), ("target", Json.null)]
+    | some t => jobj [("path", encPath p), ("target", encSec t), ("noClash", jbool (noClash l t)),
+                      ("noFill", jbool (noFill l t))]
+
+def handle (j : Json) : Except String Json := do
+  let op ← getStr j "op"
+  match op with
+  | "cycle" =>
+    let doc ← decDoc (← getVal j "doc")
+    let filesJ ← getVal j "files"
+    let files ← match filesJ with
+      | .obj kvs => kvs.toList.mapM (fun (k, v) => do pure (k, ← decDoc v))
+      | _ => throw "bad files"
+    let fetch := mkFetch files
+    let ops ← (← getArr j "ops").toList.mapM (fun o => match o with
+      | .str s => pure s
+      | _ => throw "bad op")
+    let states ← runOps fetch doc ops
+    pure (jobj [("states", jarr states), ("regime", jbool (inRegime fetch doc)),
+                ("linkers", jarr ((linkers doc).map (linkerInfo fetch doc)))])
+  | _ => throw s!"unknown op {op}"
 
 end DrvC12
 
